@@ -2,7 +2,7 @@ INIT GenInit
 NEXT GenNext
 CONSTANTS
   Req = {"r1", "r2", "r3"}
-  Keys = {"k1", "k2"}
+  Keys = {"k1"}
   Disp = {"d1", "d2"}
   Purgers = {"p1", "p2"}
   HasStore <- MC_HasStore
@@ -20,7 +20,7 @@ CONSTANTS
   MaxVer = 8
   MaxEnt = 8
   MaxPurges = 3
-  MaxKills = 0
+  MaxKills = 1
   MaxDrops = 0
   UnnamedPurge = TRUE
   ResumeRelooks = TRUE
